@@ -8,6 +8,14 @@ def build(reg):
     ws_units.build(reg)
 
 
+def replay(o):
+    unit = o.get("unit") or o.get("name", "")
+    if any(k in unit for k in ("processControlFrame", "processData[header]", "onPing", "_protocol_violation")):
+        from . import ws_pair_harness
+        return ws_pair_harness.run("violations")
+    return {"reproduced": False, "detail": "no replay harness for this unit"}
+
+
 def extra_checks(tier, seed):
     """lemmas about spec functions used as axioms in this property's VCs"""
     from pyvc import natives
@@ -15,4 +23,10 @@ def extra_checks(tier, seed):
     out = []
     for name, (hyps, goal) in natives.join_lemma_obligations():
         out.append(solve("%s/lemma/" % __name__.split(".")[-1].upper() + name, hyps, goal, 20000))
+    if tier == "thorough":
+        from pyvc import replaylib as R
+        from . import ws_pair_harness as H
+        out.append(R.native_crosscheck("C02/bounded/violating-frames-under-three-segmentations", H.HARNESS % {"mode": "violations"},
+                                       "9 kinds of violating frame x both roles x both failure policies x 3 read segmentations, "
+                                       "each followed by a valid message, on a real client / server pair"))
     return out
